@@ -38,8 +38,8 @@ type HCell struct {
 	absent bool // created on the way to an assignment target; may still become a container
 }
 
-func hNull() HV          { return HV{K: 'z'} }
-func hNum(f float64) HV  { return HV{K: 'n', Num: f} }
+func hNull() HV                { return HV{K: 'z'} }
+func hNum(f float64) HV        { return HV{K: 'n', Num: f} }
 func (v HV) isContainer() bool { return v.K == 'a' || v.K == 'o' }
 
 type Heap struct {
@@ -207,13 +207,13 @@ func (p HPath) String() string {
 type HOp struct {
 	Kind string  `json:"kind"` // assign-lit | assign-path | opassign | incdec | read | call | forin-set | forin-rebind | insert-scalar
 	T    HPath   `json:"t"`
-	Lit  string  `json:"lit,omitempty"`  // JSON text of a literal (assign-lit, call argument)
-	Src  *HPath  `json:"src,omitempty"`  // assign-path
-	Op   string  `json:"op,omitempty"`   // opassign: + - * ; incdec: pre++ post++ pre-- post--
-	Num  float64 `json:"num,omitempty"`  // opassign operand
-	Fn   string  `json:"fn,omitempty"`   // call: setk | seti | repl | incp
-	Key  string  `json:"key,omitempty"`  // call setk / forin-set key
-	Idx  int     `json:"idx,omitempty"`  // call seti index
+	Lit  string  `json:"lit,omitempty"` // JSON text of a literal (assign-lit, call argument)
+	Src  *HPath  `json:"src,omitempty"` // assign-path
+	Op   string  `json:"op,omitempty"`  // opassign: + - * ; incdec: pre++ post++ pre-- post--
+	Num  float64 `json:"num,omitempty"` // opassign operand
+	Fn   string  `json:"fn,omitempty"`  // call: setk | seti | repl | incp
+	Key  string  `json:"key,omitempty"` // call setk / forin-set key
+	Idx  int     `json:"idx,omitempty"` // call seti index
 }
 
 // literal JSON text -> jqawk literal text (JSON syntax is valid jqawk syntax for our literals)
@@ -356,7 +356,7 @@ func (h *Heap) resolveForWrite(p HPath) (*HCell, error) {
 			if s.IsIdx {
 				return nil, errUnsupported{"numeric index on an object"}
 			}
-			if (heapMethodNames[s.Key] && !h.allowMethodKeys) {
+			if heapMethodNames[s.Key] && !h.allowMethodKeys {
 				return nil, errUnsupported{"method-named key (known finding K3)"}
 			}
 			m, ok := v.Obj.M[s.Key]
@@ -417,7 +417,7 @@ func (h *Heap) prevalidateWrite(p HPath) error {
 			if s.IsIdx {
 				return errUnsupported{"numeric index on an object"}
 			}
-			if (heapMethodNames[s.Key] && !h.allowMethodKeys) {
+			if heapMethodNames[s.Key] && !h.allowMethodKeys {
 				return errUnsupported{"method-named key (known finding K3)"}
 			}
 			m, ok := v.Obj.M[s.Key]
@@ -1230,17 +1230,18 @@ func (h *Heap) dryRun(op *HOp) error {
 func registerC09() {
 	mk := func(name string, count map[string]int, maxOps int) *Workload {
 		return &Workload{
-			Name:  name,
-			Count: func(tier string) int { return count[tier] },
-			Gen:   func(i int, t *Tape, tier string) any { return genHeapCase(t, maxOps) },
-			Run:   func(c any, keep bool) Outcome { return runHeapCase(c.(*HeapCase), keep) },
-			New:   func() any { return &HeapCase{} },
+			Name:     name,
+			Count:    func(tier string) int { return count[tier] },
+			Gen:      func(i int, t *Tape, tier string) any { return genHeapCase(t, maxOps) },
+			Run:      func(c any, keep bool) Outcome { return runHeapCase(c.(*HeapCase), keep) },
+			New:      func() any { return &HeapCase{} },
+			Simplify: simplifyHeap,
 		}
 	}
 	register(&Property{
 		ID:    "C09",
 		Level: "exploration",
-		Rule: "seeded histories of 3-40 operations (assign literal / copy-or-share from a path; member and index writes through chains of depth 0-4 over existing, missing and unset bases incl. negative and past-the-end indices; op= for + - *; prefix/postfix ++/--; pure reads incl. missing keys and out-of-range indices; functions that mutate, replace or increment their parameter; for-in loop variables mutated and rebound; scalars inserted into containers and then changed) over 2-4 variables and a $-rooted document; after every operation every variable and the document are printed and compared path by path with a reference heap (scalars by value, containers by reference). Distinct = distinct (set of operation kinds, length bucket); non-trivial = at least two operations.",
+		Rule:  "seeded histories of 3-40 operations (assign literal / copy-or-share from a path; member and index writes through chains of depth 0-4 over existing, missing and unset bases incl. negative and past-the-end indices; op= for + - *; prefix/postfix ++/--; pure reads incl. missing keys and out-of-range indices; functions that mutate, replace or increment their parameter; for-in loop variables mutated and rebound; scalars inserted into containers and then changed) over 2-4 variables and a $-rooted document; after every operation every variable and the document are printed and compared path by path with a reference heap (scalars by value, containers by reference). Distinct = distinct (set of operation kinds, length bucket); non-trivial = at least two operations.",
 		Assumptions: []string{
 			"no fault or interleaving dimension exists for this property; what the harness contributes is seeded history search, per-step model conformance, minimisation and replay",
 			"known finding K1: no length-changing write (past-the-end index) on an array that the reference heap sees through two or more cells",
